@@ -47,6 +47,22 @@ def main():
                    "(0..6 factors incl. spectators, random enumeration order); distinct = (gate, label)")
     n_cases = 500 if a.tier == "quick" else 6000
     cases = []
+    keep = []  # every label built stays alive: PauliLabel interns instances in a weak cache keyed by a string
+    # wide registers with digit-structured indices (1, 11, 111, 12, 112, ...): keys that concatenate digits collide there
+    WIDE = [1, 2, 3, 11, 12, 13, 21, 22, 23, 31, 32, 33, 111, 112, 113, 121, 122, 123, 211, 212, 213, 1000, 4096]
+    for _ in range(n_cases // 3):
+        pool = rng.sample(WIDE, rng.randint(2, 6))
+        r = rng.random()
+        if r < 0.4:
+            name, qs = rng.choice(ONEQ), [rng.choice(pool)]
+        else:
+            name, qs = rng.choice(TWOQ), rng.sample(pool, 2)
+        idx = rng.sample(pool, rng.randint(0, len(pool)))
+        for q in qs:
+            if q not in idx and rng.random() < 0.7:
+                idx.append(q)
+        rng.shuffle(idx)
+        cases.append((name, qs, [(i, rng.randint(1, 3)) for i in idx]))
     for _ in range(n_cases):
         n = rng.choice([2, 3, 4, 5, 12])
         r = rng.random()
@@ -76,7 +92,9 @@ def main():
         else:
             g = getattr(gates, name)(*qs)
         try:
-            pl, c = clifford_gate_conjugation(g, PauliLabel(lab))
+            src = PauliLabel(lab)
+            pl, c = clifford_gate_conjugation(g, src)
+            keep.extend([src, pl])
             real.append((sorted((int(i), int(p)) for i, p in pl), complex(c)))
         except (ValueError, NotImplementedError, KeyError) as e:
             real.append(None)
@@ -114,12 +132,14 @@ def main():
         if rr is None:
             res.fail(f"sweep:conjugation:raises:{name}", "supported Clifford gate rejected", inp)
             continue
-        n = max([q for q in qs] + [i for i, _ in lab] + [0]) + 1
+        used = sorted(set(qs) | {i for i, _ in lab} | {i for i, _ in rr[0]})  # compact sparse indices
+        cm = {q: j for j, q in enumerate(used)}
+        n = max(len(used), 1)
         if n <= 6:
             U = np.eye(2 ** n, dtype=complex)
-            U = O.apply_local(U, O.local_matrix(name), qs, n)
-            P = O.pauli_label_matrix(lab, n)
-            Pp = O.pauli_label_matrix(rr[0], n)
+            U = O.apply_local(U, O.local_matrix(name), [cm[q] for q in qs], n)
+            P = O.pauli_label_matrix([(cm[i], p) for i, p in lab], n)
+            Pp = O.pauli_label_matrix([(cm[i], p) for i, p in rr[0]], n)
             d = np.max(np.abs(U @ P @ U.conj().T - rr[1] * Pp))
             if d > 1e-9 or rr[1] not in (1, -1):
                 res.fail(f"sweep:conjugation:{name}", f"U P U^dag != c P' (dist {d:.2e}, c={rr[1]})", inp)
@@ -129,9 +149,9 @@ def main():
     # may reject them; if it answers, the answer must satisfy U P U^dag = c P'
     import math
     for _ in range(60 if a.tier == "quick" else 600):
-        n = rng.choice([1, 2, 3])
+        n = rng.choice([1, 2, 3, 4])
         q = rng.randrange(n)
-        kname = rng.choice(["RX", "RY", "RZ", "U1", "U2", "U3", "PauliRotation"])
+        kname = rng.choice(["RX", "RY", "RZ", "U1", "U2", "U3", "PauliRotation", "PauliRotationN", "TOFFOLI"])
         ks = [rng.randint(-4, 4) for _ in range(3)]
         if kname in ("RX", "RY", "RZ", "U1"):
             g = getattr(gates, kname)(q, ks[0] * math.pi / 2)
@@ -139,6 +159,13 @@ def main():
             g = gates.U2(q, ks[0] * math.pi / 2, ks[1] * math.pi / 2)
         elif kname == "U3":
             g = gates.U3(q, ks[0] * math.pi / 2, ks[1] * math.pi / 2, ks[2] * math.pi / 2)
+        elif kname == "PauliRotationN":  # multi-qubit Pauli rotation at (or next to) a Clifford angle
+            tq = rng.sample(range(n), rng.randint(1, n))
+            g = gates.PauliRotation(tq, [rng.randint(1, 3) for _ in tq], ks[0] * math.pi / 2 + rng.choice([0.0, 1e-7, -1e-7]))
+        elif kname == "TOFFOLI":
+            if n < 3:
+                continue
+            g = gates.TOFFOLI(*rng.sample(range(n), 3))
         else:
             g = gates.PauliRotation([q], [rng.randint(1, 3)], ks[0] * math.pi / 2)
         lab = [(i, rng.randint(1, 3)) for i in range(n) if i == q or rng.random() < 0.5]
